@@ -17,8 +17,11 @@ def case_(
     default_source_: Observable[_T] | AnyFuture[_T] = default_source or empty()
 
     def factory(_: abc.SchedulerBase) -> Observable[_T]:
+        # Only a missing key selects the default source: a KeyError raised
+        # by the mapper itself is an error of the sequence.
+        key = mapper()
         try:
-            result: Observable[_T] | AnyFuture[_T] = sources[mapper()]
+            result: Observable[_T] | AnyFuture[_T] = sources[key]
         except KeyError:
             result = default_source_
 
